@@ -45,6 +45,7 @@ PROPS = {
                 "(hex / decimal as bytes), near-valid rejects, field-zoo values, fold-collision aliases s+q of valid s] "
                 "Element/AffinePoint/Encoding, 7 in the minimal build) must answer exactly as decodeSpec o canonical parse. "
                 "A case = one string; none is trivial." + DISTINCT,
+        "rule_more": "placement pass: the same bytes as a sub-slice at each of the 16 distances from a 16-byte boundary (surroundings zero / a valid encoding repeated) and as an Encoding inside a repr(C) record at each distance; every slice- and reference-taking entry point must answer as for the bytes in a buffer of their own.",
         "text": "Specification-decoder monitor: accept/reject verdict, error kind and decoded element of all decoding entry points "
                 "are compared with an independent transcription of decodeSpec on hostile strings. Compress::No / Validate::No modes "
                 "are unimplemented!() for every input and deliberately not exercised.",
@@ -60,7 +61,7 @@ PROPS = {
                 "(vartime_compress, field form, From impls, CanonicalSerialize of Element/AffinePoint/Encoding, Debug/Display hex, "
                 "ToConstraintField): bytes must equal encodeSpec(model element), top three bits clear; all pairs inside batches: "
                 "== <=> bytes equal <=> model equal. Trivial: identity representatives." + DISTINCT,
-        "rule_more": "plus uncompressed / alternate-format ({:#?}) encoders (a panic of an unimplemented mode is counted, bytes must be canonical), "
+        "rule_more": "Round-6 classes: each projective coordinate in turn equal to 1, -1, 2, R, R^-1, R^-2 with Z != 1; rescalings that make the encoder's inverse-square-root argument such a constant. plus uncompressed / alternate-format ({:#?}) encoders (a panic of an unimplemented mode is counted, bytes must be canonical), "
                      "and object-lifecycle programs: persistent Element / AffinePoint objects from 16 constructors, mutated in place, "
                      "every encoder against encodeSpec of the object's actual coordinates, == objects must encode equally. Encoding == Encoding must be byte equality (all single-bit neighbours, valid pairs differing in one high bit).",
         "text": "Reference-encoder monitor over every representation reachable by arithmetic or constructed through the hook.",
@@ -99,7 +100,7 @@ PROPS = {
                 "element classes (G, P, other coset member, identities, rescaled) x every Mul/MulAssign form, mul_bigint, "
                 "scalar_mul(_vartime) with extra leading-zero limbs and the empty slice; r*P = identity for every zoo element; "
                 "additivity/multiplicativity laws; MSM forms at sizes 0..=100 (thorough: 1000). Trivial: identity operand or k = 0." + DISTINCT,
-        "rule_more": "scalar zoo also holds recoding runs (window digits 2^(w-1)-1, 2^(w-1), 2^w-1 for w <= 8 in every limb) and ladder "
+        "rule_more": "Also scalars whose internal form is short / has empty limbs, and base/scalar coincidences (short coordinate +-c x scalars 0..8, c-2..c+2, negatives, two-limb folds). scalar zoo also holds recoding runs (window digits 2^(w-1)-1, 2^(w-1), 2^w-1 for w <= 8 in every limb) and ladder "
                      "collisions ((k mod 2^j) = +-2^j mod r; prefixes c*r+delta), MSM through lazy / nested iterators. Mismatched-length MSM (prefix semantics, msm refuses), planted repeated points.",
         "text": "Reference-model monitor: the k-fold sum is computed independently by the integer k, so the group order is checked, "
                 "not assumed.",
@@ -117,7 +118,7 @@ PROPS = {
                 "constants, Default, zero(), generator(); deserialisers, into_affine/into_group, normalize_batch, "
                 "batch_convert_to_mul_base, clear_cofactor, mul_by_cofactor_to_group on program registers; outputs of decode and "
                 "hash-to-group. None is trivial." + DISTINCT,
-        "rule_more": "plus stuck-then-release RNG streams, container deserialisation (Vec / array / tuple / Option), batches with related Z "
+        "rule_more": "Also RNG streams that spell a field-zoo value (canonical / internal-form / 48- and 64-byte / big-endian / after one rejected draw). plus stuck-then-release RNG streams, container deserialisation (Vec / array / tuple / Option), batches with related Z "
                      "coordinates (product 1, sum 0, equal, +-1), long batches (to 5000; thorough 16385), outputs of every decoding entry "
                      "point on the hostile decoder strings.",
         "text": "Invariant monitor: every element handed out by a public constructor must round-trip through its encoding and lie in "
@@ -136,6 +137,7 @@ PROPS = {
                 "Elligator collisions: all preimages of sampled images by model-side inversion of the map; pairs with equal "
                 "image (expect 2P) and opposite image (expect identity). "
                 "Trivial: r0 = 0." + DISTINCT,
+        "rule_more": "engineered r: r0 = sqrt(v/zeta) for every field-zoo value v that has one (limb patterns, internal-form extremes, small-order elements and quotient boundaries placed at r = zeta*r0^2, the value the map works on); the inverse-square-root argument equal to the Montgomery constants.",
         "text": "Reference-model monitor against an independent transcription of the specification's unoptimised map.",
         "note": "trusted: BigUint elligatorSpec (self-tested on the 8 sage vectors). den = 0 in the spec would be logged as "
                 "spec-undefined, never judged (it is unreachable).",
@@ -193,7 +195,7 @@ PROPS = {
                 "a seeded strided sample (about 250k pairs per field, thorough 4M) of zoo x zoo pairs (0,1,2,p-1,p-2,(p+-1)/2, every 2^k, 2^k-1, p-2^k, limb "
                 "patterns, R, R^2, R^-1, roots of unity, values sharing limbs with p, recoding runs, decimal structure), random pairs. Division by zero panicking is documented behaviour and only "
                 "counted. Trivial: all operands in {0,1}." + DISTINCT,
-        "rule_more": "zoo additions: divstep worst-case inputs (beam search: ~2.4*bits iterations), Montgomery extremes, limb-fold symmetric "
+        "rule_more": "Also elements of every small multiplicative order n | p-1 (n <= 1024) and quotient boundaries floor(j*p/k) for the small multipliers of the curve formulas. zoo additions: divstep worst-case inputs (beam search: ~2.4*bits iterations), Montgomery extremes, limb-fold symmetric "
                      "values, recoding runs, decimal structure, modulus-limb sharing; resumable (non-fused) iterators; fold lists of "
                      "length 31..1025 with extreme contents; from_base_prime_field_elems arity. Exponents k(p-1)+-1 with bases 0, +-1, 2 and 6..17-limb exponents; &mut operands must be left unchanged; 2-adic relations with p.",
         "text": "Reference-model monitor over the complete form catalogue; results are compared as canonical bytes.",
@@ -247,7 +249,7 @@ PROPS = {
                 "Lazy histories: all 781 sequences of length <= 4 over {compress_to_field, value, cs, clone+compress, clone+value} from "
                 "both start states on several elements: constraints may grow only at the first forcing of a missing form, values stay "
                 "equal to native, clone-free histories forcing the same forms end in identical matrices. No case is trivial." + DISTINCT,
-        "rule_more": "scalar_mul_le with constant / witness bits mixed (head, tail, interleaved) and constant base points; near-valid rejects and "
+        "rule_more": "Guards in every presentation (negated witness, output of is_eq / is_neq, public input, constant) for select and conditional enforcement. scalar_mul_le with constant / witness bits mixed (head, tail, interleaved) and constant base points; near-valid rejects and "
                      "special field values as encodings; arkx configuration in both tiers. Optimisation goal Constraints / Weight / None as a configuration; equality family on two constants.",
         "text": "Consistency monitor between circuit and native code; value() is read only on satisfied systems.",
         "note": "the native functions are themselves monitored by C01-C09; hints are honest here (adversarial hints: C14).",
@@ -269,7 +271,7 @@ PROPS = {
                 "tamper engine: for every catalogue gadget (scalar_mul_le in thorough) and input, every non-derivable witness: boolean "
                 "flip, runs of >= 200 bit hints replaced by the bits of v+p and v-p and single flips, field hints replaced by -v, 0, 1, "
                 "v+1, zeta*v, random (about 30k tampered assignments in quick). A case = (gadget, input, call index or hint, alternative)." + DISTINCT,
-        "rule_more": "(d) hostile programs with an honest prover: an invalid lazily decoded encoding (witness or input) among valid registers of "
+        "rule_more": "Bit decompositions are read off their packing constraints (exact positions), alternatives v +- p on the hint bits; negations of full-size valid encodings as inputs. (d) hostile programs with an honest prover: an invalid lazily decoded encoding (witness or input) among valid registers of "
                      "every allocation mode and 0..4 padding witnesses, forced by negate / add / is_eq / enforce_equal, must be unsatisfiable; "
                      "off-curve multiples (lx, ly) of valid coordinates.",
         "text": "Fault enumeration of malicious prover hints at the two hooked sites. Known finding (not repaired, see known_findings.json): "
@@ -290,7 +292,7 @@ PROPS = {
                 "circuits re-stated from tests/groth16_gadgets.rs on hostile witnesses (scalars 0, r-1, r, 2^256-1; identity, (0,-1), "
                 "both coset members; r0 = 0, +-1): shapes, validated key deserialisation, query lengths vs matrices, honest proofs "
                 "verify, each proof rejected for >= 5 wrong public inputs. No case is trivial." + DISTINCT,
-        "rule_more": "blank setup (every allocation answers AssignmentMissing): refusal counted, a produced system must equal the proving-mode "
+        "rule_more": "Witness-only synthesis mode (Prove{construct_matrices:false}) must give the same variables, values and constraint count as proving mode; public inputs with sparse encodings. blank setup (every allocation answers AssignmentMissing): refusal counted, a produced system must equal the proving-mode "
                      "system; CountConstraints on the seven circuits; identity representatives through both public-input paths.",
         "text": "Shape/transcript monitor; digests are only compared within a run, the pinned keys are the only stored reference.",
         "note": "proofs are randomised, only accept/reject bits are compared; trusted: ark-groth16.",
@@ -307,7 +309,7 @@ PROPS = {
                 "pairings e(aG1,bG2) incl. a=-b, small a: output bytes, bilinearity, miller_loop bytes, final_exponentiation, "
                 "multi_pairing; random Fp12 elements: frobenius_map(0..11) of Fp12/Fp6/Fp2 components, mul, square, inverse, pow, "
                 "Fp2 sqrt/legendre. Trivial: zero scalars." + DISTINCT,
-        "rule_more": "readers with partial progress; integer-zoo mul_bigint (q+-2, prefixes c*q+delta, recoding runs, long); hostile points "
+        "rule_more": "Decoded points are compared as objects (stored x, y, infinity flag, identity predicates), not through re-serialisation. readers with partial progress; integer-zoo mul_bigint (q+-2, prefixes c*q+delta, recoding runs, long); hostile points "
                      "related to a just-validated point, with a vanishing coordinate component; multi-pairing lists with identities. Cosets of the subgroup by small-order points; wide scalars on non-members.",
         "text": "Differential monitor against the object the property names (the reference engine is already a dependency of /repo).",
         "note": "trusted: ark-bls12-377 / ark-ec generic code.",
